@@ -84,7 +84,7 @@ Section T.
   Notation cstate := (cstate Param Series LossV).
   Notation one_batch := (one_batch Param Series LossV model lossf loss_leb rounds0 propose draws agent_actions plan).
   Notation batches := (batches Param Series LossV model lossf loss_leb rounds0 propose draws agent_actions plan).
-  Notation calibrate := (calibrate Param Series LossV model lossf loss_leb rounds0 propose draws agent_actions plan).
+  Notation calibrate_pos := (calibrate_pos Param Series LossV model lossf loss_leb rounds0 propose draws agent_actions plan).
   Notation step := (step Param Series LossV model lossf loss_leb rounds0 propose draws agent_actions plan).
   Notation run := (run Param Series LossV model lossf loss_leb rounds0 propose draws agent_actions plan).
 
@@ -171,10 +171,10 @@ Section T.
   Lemma end_session_samplers (sc sc' : sched LossV) : end_session _ sc = inl sc' -> sched_samplers _ sc' = sched_samplers _ sc.
   Proof. destruct sc as [|l h b st al cs]; cbn; [intros H; now injection H as <-|]. destruct st; [discriminate|]. intros H; now injection H as <-. Qed.
 
-  Lemma calibrate_TInv n s s' e r : TInvS s -> calibrate n s = (s', e, r) ->
+  Lemma calibrate_pos_TInv n s s' e r : TInvS s -> calibrate_pos n s = (s', e, r) ->
      TInvS s' /\ tbl _ _ _ (live _ _ _ s') = tbl _ _ _ (live _ _ _ s).
   Proof.
-    intros [Hl Hd] H. unfold Calibrator.calibrate in H.
+    intros [Hl Hd] H. unfold Calibrator.calibrate_pos in H.
     set (c1 := if Nat.eqb _ 0 then _ else _) in H.
     assert (Hc1 : TInv c1 /\ tbl _ _ _ c1 = tbl _ _ _ (live _ _ _ s)).
     { unfold c1; destruct (Nat.eqb _ 0); [split; [now apply seeds_TInv | reflexivity] | auto]. }
@@ -187,6 +187,14 @@ Section T.
     destruct o1; destruct (end_session _ _) as [sc'|e1] eqn:Hes; injection H as <- <- <-;
       (split; [split; [try (apply set_sch_same_classes; [now apply end_session_samplers | exact Hl1]); try exact Hl1 | exact Hd1] | cbn; congruence]).
   Qed.
+
+  Notation calibrate := (calibrate Param Series LossV model lossf loss_leb rounds0 propose draws agent_actions plan).
+  Lemma calibrate_TInv n s s' e r : TInvS s -> calibrate n s = (s', e, r) ->
+     TInvS s' /\ tbl _ _ _ (live _ _ _ s') = tbl _ _ _ (live _ _ _ s).
+  Proof. intros Hi H. rewrite (calibrate_unfold Param Series LossV) in H. destruct n; [|eapply calibrate_pos_TInv; eauto].
+    destruct (calibrate_pos 0 s) as [[s1 e1] r1] eqn:E. destruct (calibrate_pos_TInv _ _ _ _ _ Hi E) as [[Hl Hd] Ht].
+    apply zero_ckpt_cases in H. destruct H as [(-> & _ & _) | [(_ & Hlive & Hdisk & _) | (_ & -> & _)]]; [split; [split|]; auto | | split; [split|]; auto].
+    split; [split|]; rewrite ?Hlive; auto. intros d Hd'. rewrite Hdisk in Hd'. injection Hd' as <-. exact Hl. Qed.
 
   Lemma step_TInv s o s' e r : TInvS s -> step s o = (s', e, r) -> TInvS s'.
   Proof.
